@@ -74,6 +74,7 @@ def main(ctx):
                          "root": s[0] == API_KINDS[0] and s[1] is None})
         for i in range(8):
             jobs.append({"kind": "flat", "part": i, "parts": 8})
+        jobs.append({"kind": "flat2"})
         jobs.append({"kind": "reentrant"})
         jobs.append({"kind": "twosessions"})
         # the tiny single-API shards first: their counterexamples are the shortest
@@ -93,7 +94,8 @@ def main(ctx):
               "v:unspecified", "protocol_error_raised", "three_outstanding", "two_kinds_outstanding",
               "reply_out_of_order", "id_wrapped", "flat_execs", "progress_details_delivered",
               "dup_after_result", "dup_after_error", "completed_ok", "completed_err",
-              "reentrant_execs", "twosession_execs"):
+              "reentrant_execs", "twosession_execs", "flat2_decorated_register",
+              "flat2_decorated_subscribe", "flat2_encrypted_with_options", "unrequested_progress:ignored"):
         ctx.require(n)
 
 
@@ -904,6 +906,8 @@ def job(a):
     seed = int(env.get("seed", 0))
     if a["kind"] == "flat":
         return _job_flat(a, env, seed)
+    if a["kind"] == "flat2":
+        return _job_flat2(a, env, seed)
     first = a["first"]
     depth, full_depth, idseed, maxout = a["depth"], a["full_depth"], a["idseed"], a["maxout"]
     stats = collections.Counter()
@@ -1091,7 +1095,137 @@ def _job_flat(a, env, seed):
             "samples": [{"kind": "flat", "cases": len(cases)}]}
 
 
+def _job_flat2(a, env, seed):
+    """requests issued through the less travelled entry points:
+    (1) register(obj) / subscribe(obj) with decorated methods - every method's request carries ITS
+        options (the decorator's if it has some, else the options of the call), whatever the other
+        methods of the object use, in every order of declaration;
+    (2) call / publish with options while a payload codec is active: the request still carries the
+        given options (acknowledge, exclude_me, timeout, ...) next to the encrypted payload."""
+    import collections
+    import itertools
+    from harness import wamp_l1 as H
+    from ref import wamp_session as R
+    from autobahn import wamp
+    from autobahn.wamp import types as T
+    stats = collections.Counter()
+    viol = []
+
+    def bad(clause, detail):
+        if len(viol) < 10:
+            viol.append({"sig": "C04|%s|flat2" % clause, "desc": "[fw=%s] %s" % (env.get("fw"), detail),
+                         "replay": {"env": {"fw": env.get("fw"), "nvx": "1"}, "func": "props.c04:job",
+                                    "arg": a}})
+    evals = 0
+    # ---- (1) decorated objects
+    deco = {"A": (T.RegisterOptions(match="prefix", invoke="roundrobin"), {"match": "prefix", "invoke": "roundrobin"}),
+            "B": (None, None),
+            "C": (T.RegisterOptions(invoke="last"), {"invoke": "last"})}
+    for names in itertools.permutations("ABC"):
+        for call_opts, call_exp in ((None, {}), (T.RegisterOptions(invoke="first"), {"invoke": "first"})):
+            ns = {}
+            for i, n in enumerate(names):
+                # methods are registered in alphabetical order of their names
+                meth = "m%d_%s" % (i, n)
+                fn = (lambda self, *a_, **k_: None)
+                fn = wamp.register("com.flat2.%s" % n.lower(), options=deco[n][0])(fn) if deco[n][0] is not None \
+                    else wamp.register("com.flat2.%s" % n.lower())(fn)
+                ns[meth] = fn
+            obj = type("Svc", (object,), ns)()
+            l1 = H.L1().join()
+            n0 = len(l1.transport.sent)
+            r = l1.api(l1.session.register, obj, options=call_opts)
+            l1.settle()
+            evals += 1
+            stats["flat2_decorated_register"] += 1
+            sent = [R.norm_wire(w_) for w_ in l1.wire(n0)]
+            got = {w_[3]: w_[2] for w_ in sent if w_[0] == R.REGISTER}
+            want = {"com.flat2.%s" % n.lower(): (deco[n][1] if deco[n][1] is not None else call_exp) for n in names}
+            if r[0] == "raise":
+                bad("api-raised", "register(obj) raised %s" % H.exc_brief(r[1]))
+            elif got != want:
+                bad("request-wire", "register(obj) with methods %s, call options %r: REGISTER options %r expected %r" % (
+                    list(names), call_exp, got, want))
+    sdeco = {"A": (T.SubscribeOptions(match="prefix"), {"match": "prefix"}), "B": (None, None),
+             "C": (T.SubscribeOptions(match="wildcard", get_retained=True), {"match": "wildcard", "get_retained": True})}
+    for names in itertools.permutations("ABC"):
+        for call_opts, call_exp in ((None, {}), (T.SubscribeOptions(get_retained=True), {"get_retained": True})):
+            ns = {}
+            for i, n in enumerate(names):
+                fn = (lambda self, *a_, **k_: None)
+                fn = wamp.subscribe("com.flat2.t%s" % n.lower(), options=sdeco[n][0])(fn) if sdeco[n][0] is not None \
+                    else wamp.subscribe("com.flat2.t%s" % n.lower())(fn)
+                ns["h%d_%s" % (i, n)] = fn
+            obj = type("Obs", (object,), ns)()
+            l1 = H.L1().join()
+            n0 = len(l1.transport.sent)
+            r = l1.api(l1.session.subscribe, obj, options=call_opts)
+            l1.settle()
+            evals += 1
+            stats["flat2_decorated_subscribe"] += 1
+            sent = [R.norm_wire(w_) for w_ in l1.wire(n0)]
+            got = {w_[3]: w_[2] for w_ in sent if w_[0] == R.SUBSCRIBE}
+            want = {"com.flat2.t%s" % n.lower(): (sdeco[n][1] if sdeco[n][1] is not None else call_exp) for n in names}
+            if r[0] == "raise":
+                bad("api-raised", "subscribe(obj) raised %s" % H.exc_brief(r[1]))
+            elif got != want:
+                bad("request-wire", "subscribe(obj) with handlers %s, call options %r: SUBSCRIBE options %r expected %r" % (
+                    list(names), call_exp, got, want))
+    # ---- (2) options next to an encrypted payload
+    try:
+        from autobahn.wamp.cryptobox import KeyRing
+        import base64
+        key = base64.b64encode(bytes(range(32))).decode()
+    except Exception:
+        KeyRing = None
+    if KeyRing is not None:
+        cases = [("publish", T.PublishOptions(acknowledge=True), {"acknowledge": True}),
+                 ("publish", T.PublishOptions(acknowledge=True, exclude_me=False, retain=True, eligible=[7]),
+                  {"acknowledge": True, "exclude_me": False, "retain": True, "eligible": [7]}),
+                 ("publish", None, {}),
+                 ("call", T.CallOptions(timeout=9), {"timeout": 9}),
+                 ("call", T.CallOptions(on_progress=lambda *a_, **k_: None, timeout=3), {"receive_progress": True, "timeout": 3}),
+                 ("call", None, {})]
+        for kind, opts, exp in cases:
+            for args, kwargs in (((), {}), ((1, "two"), {"k": [3]})):
+                l1 = H.L1().join()
+                l1.session.set_payload_codec(KeyRing(key))
+                n0 = len(l1.transport.sent)
+                kw = dict(kwargs)
+                if opts is not None:
+                    kw["options"] = opts
+                uri = "com.flat2.enc.%s" % kind
+                r = l1.api(getattr(l1.session, kind), uri, *args, **kw)
+                l1.settle()
+                evals += 1
+                stats["flat2_encrypted_with_options"] += 1
+                sent = [R.norm_wire(w_) for w_ in l1.wire(n0)]
+                if r[0] == "raise":
+                    bad("api-raised", "%s() with a payload codec raised %s" % (kind, H.exc_brief(r[1])))
+                    continue
+                if r[1] is not None:
+                    l1.track("x", r[1])
+                if len(sent) != 1:
+                    bad("request-count", "%s with codec sent %r" % (kind, sent))
+                    continue
+                o = dict(sent[0][2])
+                enc = {k_: o.pop(k_) for k_ in list(o) if k_.startswith("enc_")}
+                if o != exp or sent[0][3] != uri:
+                    bad("request-wire", "%s(%s) with a payload codec: options %r expected %r (+ enc_*)" % (
+                        kind, uri, o, exp))
+                if enc.get("enc_algo") != "cryptobox" or not isinstance(sent[0][4] if len(sent[0]) > 4 else None, bytes):
+                    bad("request-wire", "%s with a payload codec not encrypted: %r" % (kind, sent[0][:4]))
+                if kind == "publish" and exp.get("acknowledge") and l1.fstate("x")[0] != "pending":
+                    bad("request-future", "acknowledged publish not pending: %r" % (l1.fbrief("x"),))
+    return {"evals": evals, "viol": viol, "stats": dict(stats, flat_execs=evals, transitions=evals),
+            "samples": [{"kind": "flat2", "cases": evals}]}
+
+
 def replay(a):
+    if a.get("kind") == "flat2":
+        from mc import worker as _w
+        r_ = _job_flat2(a, _w.ENV, int(_w.ENV.get("seed", 0)))
+        return {"viol": r_["viol"], "stats": r_["stats"]}
     """re-execute one history on the real code, checking every event, without the explorer"""
     from mc import worker
     from harness import wamp_l1 as H
